@@ -17,7 +17,50 @@ def register_primitive_enum(repo):
     sym.ENUMS["Primitive"] = variants
     sym.ENUMS["Type"] = ["Nil"] + variants
     register_enum_from_source(os.path.join(repo, "bytecode/src/variables/primitive.rs"), "HeapPrimitive")
+    register_all_enums(repo)
     return variants
+
+
+def register_all_enums(repo, crates=("bytecode/src", "compiler/src", "bytecode_dev_transpiler/src", "src")):
+    """every `enum Name { .. }` of the repository's sources that no driver registered explicitly (a change to /repo may introduce a
+    helper enum; without its variant order the engine would have to give up at the first `discriminant`).  A name declared twice
+    with different variants stays unregistered (the engine then gives up where it is used)."""
+    found = {}
+    for c in crates:
+        for root, _, files in os.walk(os.path.join(repo, c)):
+            for f in files:
+                if not f.endswith(".rs"):
+                    continue
+                try:
+                    src = open(os.path.join(root, f), encoding="utf-8").read()
+                except OSError:
+                    continue
+                for m in re.finditer(r"\benum\s+([A-Z][A-Za-z0-9_]*)\s*(?:<[^>{]*>)?\s*\{", src):
+                    name = m.group(1)
+                    depth, i = 1, m.end()
+                    while i < len(src) and depth:
+                        depth += {"{": 1, "}": -1}.get(src[i], 0)
+                        i += 1
+                    body = re.sub(r"//[^\n]*", "", src[m.end():i - 1])
+                    body = re.sub(r"#\[[^\]]*\]", "", body)
+                    d, flat = 0, ""
+                    for ch in body:
+                        if ch in "({[<":
+                            d += 1
+                        elif ch in ")}]>":
+                            d -= 1
+                        elif d == 0:
+                            flat += ch
+                    vs = []
+                    for v in flat.split(","):
+                        mm = re.match(r"\s*([A-Za-z_][A-Za-z0-9_]*)", v)
+                        if mm:
+                            vs.append(mm.group(1))
+                    if vs:
+                        found.setdefault(name, set()).add(tuple(vs))
+    for name, layouts in found.items():
+        if name not in sym.ENUMS and len(layouts) == 1:
+            sym.ENUMS[name] = list(next(iter(layouts)))
 
 
 def register_enum_from_source(path, enum_name, key=None):
